@@ -31,8 +31,9 @@ PROPS = {
         "assumptions": ["std's integer parsing/formatting is re-modelled (Model/Codec.v), not verified",
                         "absence of panics is checked by catch_unwind on every generated input, not proved"],
     },
-    "C03": sysprop(["C03"], ["cancelable", "adapters", "exit"], 6, 120, GEN_RULE),
-    "C04": sysprop(["C04"], ["cancelable", "default", "overload"], 6, 120, GEN_RULE),
-    "C08": sysprop(["C08"], ["mixed", "exit", "cancelable"], 6, 120, GEN_RULE),
-    "C09": sysprop(["C09"], ["overload", "mixed"], 8, 150, GEN_RULE),
+    "C03": sysprop(["C03"], ["cancelable", "adapters", "exit"], 250, 4000, GEN_RULE),
+    "C04": sysprop(["C04"], ["cancelable", "default", "overload"], 250, 4000, GEN_RULE),
+    "C08": sysprop(["C08"], ["mixed", "exit", "cancelable", "default"], 250, 4000, GEN_RULE),
+    "C09": sysprop(["C09"], ["overload", "mixed"], 250, 4000, GEN_RULE),
+    "C10": sysprop(["C10"], ["local", "overload", "adapters"], 250, 4000, GEN_RULE),
 }
